@@ -82,6 +82,26 @@ theorem share_boundary (t v V : Rat) (hV : 0 < V) :
   · rw [lt_div_iff₀ hV]
   · rw [div_eq_iff (ne_of_gt hV)]
 
+/-- the same for a positive total, in cross-multiplied form: a candidate passes iff its count is strictly over
+    `t · V`, or exactly `t · V` and equality is accepted (no division, hence "exact at the boundary" literally) -/
+theorem rel_threshold_exact_pos (t : Rat) (eq : Bool) (votes : Votes) (hV : 0 < sumVals votes) :
+    ∃ r, relativeThreshold t eq votes = .ok r ∧
+      ∀ c, c ∈ r ↔ ∃ v, (c, v) ∈ votes ∧ (t * sumVals votes < v ∨ (eq = true ∧ v = t * sumVals votes)) := by
+  obtain ⟨r, hr, hm, _⟩ := rel_threshold_exact t eq votes (ne_of_gt hV)
+  refine ⟨r, hr, fun c => ?_⟩
+  rw [hm c]
+  constructor
+  · rintro ⟨v, hv, h⟩
+    refine ⟨v, hv, ?_⟩
+    rcases h with h | ⟨he, h⟩
+    · exact Or.inl ((share_boundary t v _ hV).1.mp h)
+    · exact Or.inr ⟨he, (share_boundary t v _ hV).2.mp h⟩
+  · rintro ⟨v, hv, h⟩
+    refine ⟨v, hv, ?_⟩
+    rcases h with h | ⟨he, h⟩
+    · exact Or.inl ((share_boundary t v _ hV).1.mpr h)
+    · exact Or.inr ⟨he, (share_boundary t v _ hV).2.mpr h⟩
+
 /-- with a zero total of a non-empty dict the code raises ZeroDivisionError (the share is undefined) -/
 theorem rel_threshold_zero_total (t : Rat) (eq : Bool) (votes : Votes) (hne : votes ≠ [])
     (hV : sumVals votes = 0) : relativeThreshold t eq votes = .error (.other "ZeroDivisionError") := by
@@ -381,6 +401,85 @@ theorem sel_property_dispatch (a : Attrs) (f : Nat) (evs : List (Nat × Option S
   cases (match a.prop c with | some k => dictGet evs k d | none => d) with
   | none => simp [hc]
   | some s => simp
+
+/-- what the property bracketer of a tree applies to a property value -/
+private theorem propertyVariant_sel (a : Attrs) (f : Nat) (evs : List (Nat × Option Sel)) (d : Option Sel)
+    (votes : Votes) (v : Option Nat) :
+    propertyVariant (evs.map (fun e => (e.1, (Option.map (fun x v => Sel.eval a f x v none)) e.2)))
+      (Option.map (fun x v => Sel.eval a f x v none) d) votes v =
+      (match (match v with | some k => dictGet evs k d | none => d) with
+       | some s => Sel.eval a f s votes none
+       | none => .ok (keys votes)) := by
+  unfold propertyVariant
+  cases v with
+  | none => cases d <;> rfl
+  | some k =>
+    simp only
+    rw [dictGet_map (Option.map (fun x v => Sel.eval a f x v none))]
+    cases dictGet evs k d <;> rfl
+
+/-- **Fuel is only a technical device.**  `Sel.eval` recurses on a fuel counter bounding the nesting depth of the
+    tree; any answer other than the out-of-fuel marker is unchanged by more fuel (the driver runs with fuel 64). -/
+theorem sel_eval_fuel_mono (a : Attrs) : ∀ (f : Nat) (s : Sel) (votes : Votes) (prev : Option Votes),
+    Sel.eval a f s votes prev ≠ .error (.other "fuel") →
+    Sel.eval a (f+1) s votes prev = Sel.eval a f s votes prev := by
+  intro f
+  induction f with
+  | zero => intro s votes prev h; exact absurd rfl h
+  | succ f ih =>
+    intro s votes prev h
+    cases s with
+    | abs t eq => cases prev <;> rfl
+    | rel t eq => cases prev <;> rfl
+    | prevGain inner =>
+      cases prev with
+      | none => rfl
+      | some pg => exact ih inner pg none h
+    | alt parts =>
+      have e1 : ∀ g, Sel.eval a (g+1) (.alt parts) votes prev = alternativeThresholds
+          (parts.map (fun x v => Sel.eval a g x v (if x.acceptsPrev then some (prev.getD []) else none))) votes := by
+        intro g; cases prev <;> rfl
+      rw [e1 (f+1), e1 f] at *
+      unfold alternativeThresholds at h ⊢
+      rw [List.mapM_map, List.mapM_map] at *
+      have hm := mapM_congr_nonfuel
+        (fun x => Sel.eval a f x votes (if x.acceptsPrev then some (prev.getD []) else none))
+        (fun x => Sel.eval a (f+1) x votes (if x.acceptsPrev then some (prev.getD []) else none))
+        parts (fun x _ hx => ih x votes _ hx)
+        (by intro hc; apply h; simp only [Function.comp_def, hc, bind, Except.bind])
+      simp only [Function.comp_def] at hm ⊢
+      rw [hm]
+    | coalition evs d =>
+      cases prev with
+      | some _ => rfl
+      | none =>
+        have e1 : ∀ g, Sel.eval a (g+1) (.coalition evs d) votes none = coalitionBracketer a.members
+            (evs.map (fun e => (e.1, (fun x v => Sel.eval a g x v none) e.2)))
+            ((fun x v => Sel.eval a g x v none) d) votes := fun _ => rfl
+        rw [e1 (f+1), e1 f] at *
+        apply coalitionBracketer_congr _ _ _ _ _ _ _ h
+        intro k hk
+        rw [dictGet_map (fun x v => Sel.eval a f x v none)] at hk ⊢
+        rw [dictGet_map (fun x v => Sel.eval a (f+1) x v none)]
+        exact ih _ votes none hk
+    | property evs d =>
+      cases prev with
+      | some _ => rfl
+      | none =>
+        have e1 : ∀ g, Sel.eval a (g+1) (.property evs d) votes none = propertyBracketer a.prop
+            (evs.map (fun e => (e.1, (Option.map (fun x v => Sel.eval a g x v none)) e.2)))
+            (Option.map (fun x v => Sel.eval a g x v none) d) votes := fun _ => rfl
+        rw [e1 (f+1), e1 f] at *
+        unfold propertyBracketer at h ⊢
+        apply propertyLoop_congr _ _ _ _ _ _ _ _ _ h
+        intro v hv
+        rw [propertyVariant_sel] at hv ⊢
+        rw [propertyVariant_sel]
+        cases hs : (match v with | some k => dictGet evs k d | none => d) with
+        | none => rfl
+        | some s =>
+          rw [hs] at hv
+          exact ih s votes none hv
 
 /-! ## QuotaSelector -/
 
